@@ -140,6 +140,25 @@ theorem atan2_rule (s c σs σc : ℝ) (hc : c ≠ 0) (v : ℝ) :
       = (1 / (1 + (s / c) ^ 2) * (1 / c)) ^ 2 * σs + (1 / (1 + (s / c) ^ 2) * (-s / c ^ 2)) ^ 2 * σc
   field_simp
 
+/-- ... and off the line `s = 0` (in particular on the line `c = 0`), `atan2(s,c)` is `±π/2 − arctan(c/s)` up to a locally
+constant multiple of π; the variance rule is the one of those partial derivatives too.  Together with `atan2_rule` this
+covers every point except the origin, where `atan2` is not differentiable. -/
+theorem atan2_rule_s (s c σs σc : ℝ) (hs : s ≠ 0) (v : ℝ) :
+    ∃ fs fc, HasDerivAt (fun t => -Real.arctan (c / t)) fs s ∧ HasDerivAt (fun t => -Real.arctan (t / s)) fc c ∧
+      (Est.atan2E ⟨s, σs⟩ ⟨c, σc⟩ v).var = fs ^ 2 * σs + fc ^ 2 * σc := by
+  have h1 : HasDerivAt (fun t : ℝ => c / t) (-c / s ^ 2) s := by
+    have := (hasDerivAt_inv hs).const_mul c
+    simpa [div_eq_mul_inv, neg_mul] using this
+  have h2 : HasDerivAt (fun t : ℝ => t / s) (1 / s) c := by simpa using (hasDerivAt_id c).div_const s
+  refine ⟨_, _, h1.arctan.neg, h2.arctan.neg, ?_⟩
+  have hsum : c * c + s * s ≠ 0 := by nlinarith [mul_self_nonneg c, mul_self_pos.mpr hs]
+  have hsum' : c ^ 2 + s ^ 2 ≠ 0 := by nlinarith [sq_nonneg s, sq_nonneg c, mul_self_pos.mpr hs]
+  have hden : (1 : ℝ) + (c / s) ^ 2 ≠ 0 := by positivity
+  show (c * c * σs + s * s * σc) / ((c * c + s * s) * (c * c + s * s))
+      = (-(1 / (1 + (c / s) ^ 2) * (-c / s ^ 2))) ^ 2 * σs + (-(1 / (1 + (c / s) ^ 2) * (1 / s))) ^ 2 * σc
+  field_simp
+  ring
+
 /-! ## product of complex estimates: every component carries the four first-order terms -/
 theorem cmul_rule (ar ai br bi sar sai sbr sbi : ℝ) :
     let p := Est.cmul (⟨ar, sar⟩ : Est ℝ) ⟨ai, sai⟩ ⟨br, sbr⟩ ⟨bi, sbi⟩
